@@ -42,6 +42,8 @@ class Tr:
         self.attrs = set()
         self.obj = objname
         self.extra_len = extra_len
+        self.locals = {}            # temporaries of the function: name -> the expression of its single assignment
+        self._busy = set()
 
     def attr_name(self, a):
         return a.lstrip('_') if False else a
@@ -56,6 +58,12 @@ class Tr:
         if isinstance(e, ast.Name):
             if e.id in env:
                 return env[e.id]
+            if e.id in self.locals and e.id not in self._busy:       # a temporary: inline its (single) definition
+                self._busy.add(e.id)
+                try:
+                    return self.expr(self.locals[e.id], env)
+                finally:
+                    self._busy.discard(e.id)
             raise Untranslatable('free name %s' % e.id)
         if isinstance(e, ast.Attribute) and isinstance(e.value, ast.Name) and e.value.id == self.obj:
             if e.attr in self.props:
@@ -165,6 +173,47 @@ def find_func(path, cls, fn):
     raise Untranslatable('%s.%s not found in %s' % (cls, fn, path))
 
 
+def single_assignments(f):
+    """local names that are assigned exactly once in the function, by a plain `name = expr`"""
+    count, value = {}, {}
+    for n in ast.walk(f):
+        if isinstance(n, ast.Assign):
+            for t in n.targets:
+                for m in ast.walk(t):
+                    if isinstance(m, ast.Name) and isinstance(m.ctx, ast.Store):
+                        count[m.id] = count.get(m.id, 0) + 1
+                        if len(n.targets) == 1 and isinstance(t, ast.Name):
+                            value[m.id] = n.value
+        elif isinstance(n, (ast.AugAssign, ast.AnnAssign)) and isinstance(n.target, ast.Name):
+            count[n.target.id] = count.get(n.target.id, 0) + 2
+        elif isinstance(n, (ast.For, ast.comprehension)):
+            for m in ast.walk(n.target):
+                if isinstance(m, ast.Name):
+                    count[m.id] = count.get(m.id, 0) + 2
+    return {k: v for k, v in value.items() if count.get(k) == 1}
+
+
+def find_guard(stmts):
+    """a block that does something only under a condition: `if T: body` (no else, nothing after; nested single ifs are a
+    conjunction) or the early-return form `if <not T>: return` followed by the body.
+    Returns ([(test_ast, negated)], body statements)."""
+    stmts = strip_doc(stmts)
+    if not stmts or not isinstance(stmts[0], ast.If):
+        raise Untranslatable('no guard')
+    g = stmts[0]
+    if not g.orelse and len(stmts) == 1:
+        tests, body = [(g.test, False)], g.body
+        while len(body) == 1 and isinstance(body[0], ast.If) and not body[0].orelse:
+            tests.append((body[0].test, False))
+            body = body[0].body
+        return tests, body
+    only_return = [s for s in g.body if not (isinstance(s, ast.Expr) and isinstance(s.value, ast.Constant))]
+    if (not g.orelse and len(only_return) == 1 and isinstance(only_return[0], ast.Return)
+            and (only_return[0].value is None or (isinstance(only_return[0].value, ast.Constant) and only_return[0].value.value is None))):
+        return [(g.test, True)], stmts[1:]
+    raise Untranslatable('something happens outside the guarded block')
+
+
 def strip_doc(stmts):
     if stmts and isinstance(stmts[0], ast.Expr) and isinstance(stmts[0].value, ast.Constant) and isinstance(stmts[0].value.value, str):
         return stmts[1:]
@@ -221,21 +270,23 @@ def t_guard(name, path, cls, fn, props, var='dk', allow_prefix_loop=False, body_
     env = {}
     pre = ''
     if var is not None:
-        if not (b and isinstance(b[0], ast.Assign) and len(b[0].targets) == 1 and isinstance(b[0].targets[0], ast.Name)
-                and b[0].targets[0].id == var):
-            raise Untranslatable('%s.%s does not start with `%s = ...`' % (cls, fn, var))
+        # the step count since the start of the adaptation, under whatever name
+        if not (b and isinstance(b[0], ast.Assign) and len(b[0].targets) == 1 and isinstance(b[0].targets[0], ast.Name)):
+            raise Untranslatable('%s.%s does not start with `<steps> = ...`' % (cls, fn))
+        var = b[0].targets[0].id
         pre = 'let v_%s := %s in ' % (var, tr.expr(b[0].value, {}))
         env[var] = 'v_' + var
         b = b[1:]
-    if not (len(b) == 1 and isinstance(b[0], ast.If) and not b[0].orelse):
+    try:
+        tests, body = find_guard(b)
+    except Untranslatable:
         raise Untranslatable('%s.%s is not a single guarded block (something happens outside the window)' % (cls, fn))
     if body_is_call is not None:
-        bb = b[0].body
-        if not (len(bb) == 1 and isinstance(bb[0], ast.Expr) and isinstance(bb[0].value, ast.Call)
-                and isinstance(bb[0].value.func, ast.Attribute) and bb[0].value.func.attr == body_is_call):
+        if not (len(body) == 1 and isinstance(body[0], ast.Expr) and isinstance(body[0].value, ast.Call)
+                and isinstance(body[0].value.func, ast.Attribute) and body[0].value.func.attr == body_is_call):
             raise Untranslatable('%s.%s: guarded block is not a single call of %s' % (cls, fn, body_is_call))
-    t = tr.test(b[0].test, env)
-    return 'Definition %s %s : bool := %s%s.' % (name, tr.signature(), pre, t)
+    parts = [('(negb %s)' % tr.test(t, env)) if neg else tr.test(t, env) for t, neg in tests]
+    return 'Definition %s %s : bool := %s(%s).' % (name, tr.signature(), pre, ' && '.join(parts))
 
 
 def t_calls(name, path, cls, fn, props, cond_method, called, counter):
@@ -293,6 +344,7 @@ def t_store_index(name, path, cls, fn, arrays, var):
                 and isinstance(n.targets[0].value, ast.Attribute) and isinstance(n.targets[0].value.value, ast.Name)
                 and n.targets[0].value.value.id == 'self' and n.targets[0].value.attr in arrays):
             tr = Tr(cls, {})
+            tr.locals = {k: v for k, v in single_assignments(f).items() if k != var}
             seen[n.targets[0].value.attr] = (tr.expr(n.targets[0].slice, {var: 'v_' + var}), tr)
     if sorted(seen) != sorted(arrays) or len({v[0] for v in seen.values()}) != 1:
         raise Untranslatable('%s.%s: the stores into %s do not all use one index expression' % (cls, fn, arrays))
@@ -413,7 +465,51 @@ def model_census(names=('model', '_model')):
             if fn.endswith('.py'):
                 path = os.path.join(root, fn)
                 visit(ast.parse(open(path).read()), [], 0, os.path.relpath(path, REPO))
+    # a private helper that is called from exactly one place is part of its caller
+    ndefs = {}
+    for root, _d, files in sorted(os.walk(base)):
+        for fn in sorted(files):
+            if fn.endswith('.py'):
+                for n in ast.walk(ast.parse(open(os.path.join(root, fn)).read())):
+                    if isinstance(n, (ast.FunctionDef, ast.AsyncFunctionDef)):
+                        ndefs[n.name] = ndefs.get(n.name, 0) + 1
+    for _ in range(3):
+        changed = False
+        for k, (site, depth) in enumerate(list(sites)):
+            rel, qual = site.split(':', 1)
+            helper = qual.split('.')[-1]
+            if not helper.startswith('_') or helper.startswith('__') or ndefs.get(helper, 0) != 1:
+                continue            # only a helper with a unique name: a method overridden in several classes is not one function
+            callers = []
+            for root, _d, files in sorted(os.walk(base)):
+                for fn in sorted(files):
+                    if fn.endswith('.py'):
+                        path = os.path.join(root, fn)
+                        callers += call_sites(ast.parse(open(path).read()), os.path.relpath(path, REPO), helper)
+            if len(callers) == 1 and callers[0][0] != site:
+                sites[k] = (callers[0][0], depth + callers[0][1])
+                changed = True
+        if not changed:
+            break
     return sorted(sites), sorted(set(escapes))
+
+
+def call_sites(tree, rel, attr):
+    """(qualified function, loop depth) of every call `<anything>.<attr>(...)` in a module"""
+    out = []
+
+    def visit(node, qual, depth):
+        for ch in ast.iter_child_nodes(node):
+            q, d = qual, depth
+            if isinstance(ch, (ast.ClassDef, ast.FunctionDef, ast.AsyncFunctionDef, ast.Lambda)):
+                q = qual + [getattr(ch, 'name', '<lambda>')]
+            if isinstance(ch, (ast.For, ast.While, ast.ListComp, ast.GeneratorExp, ast.DictComp, ast.SetComp)):
+                d = depth + 1
+            if isinstance(ch, ast.Call) and isinstance(ch.func, ast.Attribute) and ch.func.attr == attr:
+                out.append(('%s:%s' % (rel, '.'.join(q)), d))
+            visit(ch, q, d)
+    visit(tree, [], 0)
+    return out
 
 
 def generate_calls():
